@@ -192,6 +192,8 @@ def _sparse_case(draw, hi):
     }
 
 
+# (grids beyond the quantified 2..20 are deliberately not part of this check: the modular vocabulary ends at 50x50, so a library
+#  that refuses larger grids there would still satisfy the property; the int8 edge arithmetic on large grids is C13's business)
 @st.composite
 def _big_case(draw):
     base = draw(G.big_int8_case(sizes=(70, 127, 100, 65)))
@@ -225,6 +227,5 @@ def subs(tier: str):
     return [
         Sub("mazes", check, "hypothesis", strategy=lambda: _case(20), examples=120 if q else 4000),
         Sub("sparse-mazes", check, "hypothesis", strategy=lambda: _sparse_case(20), examples=80 if q else 2000),
-        Sub("large-grids", check, "hypothesis", strategy=_big_case, examples=2 if q else 20),
         Sub("datasets", check_dataset, "hypothesis", strategy=lambda: _dataset(20), examples=50 if q else 1000),
     ]
